@@ -16,7 +16,7 @@
 (*                                                                                              *)
 (* Connections are numbered 1, 2, ... in order of arrival; 0 stands for "no entry".  Arrivals,  *)
 (* the peer closing, and the answers of the TLS handshake are actions / parameters chosen by    *)
-(* the environment.  Every step records itself in `act` for the replay harness.                 *)
+(* the environment (all parameters range over constant sets, so TLC labels every step).        *)
 EXTENDS Integers, Sequences, FiniteSets, TLC
 
 CONSTANTS Kinds,      \* subset of {"plain", "tls"}
@@ -29,39 +29,39 @@ VARIABLES kind,        \* "plain": Server, "tls": ServerTls (fixed)
           ixes,        \* address -> connection in the table of ready connections (0: none)
           cxes,        \* address -> connection whose TLS handshake is still going on (0: none)
           down,        \* connections whose socket was shut down (or closed) by the server
-          closed,      \* connections whose socket was closed by closeIx / removeIx
+          closed,      \* connections whose socket was closed by closeIx / removeIx / after a lost handshake
           peerclosed,  \* connections whose peer closed
           cut,         \* connections the server has seen to be cut off (a service call read the end of stream)
           removed,     \* history: connections taken out of the table by removeIx
           replaced,    \* history: stale connections that lost their entry to a newer connection from the same address
-          res,         \* result of the last operation
-          act          \* the last step
-vars == <<kind, pending, nconn, ixes, cxes, down, closed, peerclosed, cut, removed, replaced, res, act>>
+          lost,        \* history: connections given up because the connection was lost during the TLS handshake
+          res          \* result of the last operation: "none" (environment step), "ok" / "ValueError" (operation on an
+                       \* entry), "served" (a service call returned normally)
+vars == <<kind, pending, nconn, ixes, cxes, down, closed, peerclosed, cut, removed, replaced, lost, res>>
 
-Act(a, ca, h) == [a |-> a, ca |-> ca, h |-> h]
 NoH == [x \in Addrs |-> "na"]
-Answers == [Addrs -> {"ok", "want"}]
+Answers == [Addrs -> {"ok", "want", "lost", "na"}]
 
 Init == /\ kind \in Kinds
         /\ pending = <<>> /\ nconn = 0
         /\ ixes = [a \in Addrs |-> 0] /\ cxes = [a \in Addrs |-> 0]
-        /\ down = {} /\ closed = {} /\ peerclosed = {} /\ cut = {} /\ removed = {} /\ replaced = {}
-        /\ res = "none" /\ act = Act("Init", "", NoH)
+        /\ down = {} /\ closed = {} /\ peerclosed = {} /\ cut = {} /\ removed = {} /\ replaced = {} /\ lost = {}
+        /\ res = "none"
 
 (* ---------------- environment ---------------- *)
 \* a connection from address ca arrives at the listen socket (the same address may come again)
 Arrive(ca) ==
     /\ nconn < MaxConns
     /\ nconn' = nconn + 1 /\ pending' = Append(pending, <<nconn + 1, ca>>)
-    /\ res' = "none" /\ act' = Act("Arrive", ca, NoH)
-    /\ UNCHANGED <<kind, ixes, cxes, down, closed, peerclosed, cut, removed, replaced>>
+    /\ res' = "none"
+    /\ UNCHANGED <<kind, ixes, cxes, down, closed, peerclosed, cut, removed, replaced, lost>>
 
 \* the peer of the ready connection from ca closes it
 PeerClose(ca) ==
     /\ ixes[ca] # 0 /\ ixes[ca] \notin peerclosed /\ ixes[ca] \notin closed
     /\ peerclosed' = peerclosed \cup {ixes[ca]}
-    /\ res' = "none" /\ act' = Act("PeerClose", ca, NoH)
-    /\ UNCHANGED <<kind, pending, nconn, ixes, cxes, down, closed, cut, removed, replaced>>
+    /\ res' = "none"
+    /\ UNCHANGED <<kind, pending, nconn, ixes, cxes, down, closed, cut, removed, replaced, lost>>
 
 (* ---------------- accepting ---------------- *)
 \* enter the waiting connections one after the other into table tab; a stale entry of the same address is dropped
@@ -73,27 +73,32 @@ AcceptAll(p, tab, drop) ==
              old == tab[ca] IN
          AcceptAll(Tail(p), [tab EXCEPT ![ca] = id], IF old # 0 THEN drop \cup {old} ELSE drop)
 
-\* h: the answer of the TLS handshake of the connection from each address during this call ("ok" | "want")
+\* h: the answer of the TLS handshake of the connection from each address during this call: "ok", "want" (not yet),
+\* "lost" (the connection is lost during the handshake: the server closes it and gives it up), "na" (no handshake)
 Accepting(h) ==
     IF kind = "plain"
     THEN LET r == AcceptAll(pending, ixes, {}) IN
          /\ h = NoH
          /\ ixes' = r.tab /\ cxes' = cxes
          /\ replaced' = replaced \cup r.drop /\ down' = down \cup r.drop
+         /\ UNCHANGED <<closed, lost>>
     ELSE LET r == AcceptAll(pending, cxes, {})
              done == {a \in Addrs : r.tab[a] # 0 /\ h[a] = "ok"}
-             stale == {ixes[a] : a \in {b \in done : ixes[b] # 0}} IN
-         /\ h \in Answers
+             gone == {a \in Addrs : r.tab[a] # 0 /\ h[a] = "lost"}
+             stale == {ixes[a] : a \in {b \in done : ixes[b] # 0}}
+             dead == {r.tab[a] : a \in gone} IN
+         /\ h \in Answers /\ \A a \in Addrs : (r.tab[a] = 0) <=> (h[a] = "na")
          /\ ixes' = [a \in Addrs |-> IF a \in done THEN r.tab[a] ELSE ixes[a]]
-         /\ cxes' = [a \in Addrs |-> IF a \in done THEN 0 ELSE r.tab[a]]
-         /\ replaced' = replaced \cup r.drop \cup stale /\ down' = down \cup r.drop \cup stale
+         /\ cxes' = [a \in Addrs |-> IF a \in done \cup gone THEN 0 ELSE r.tab[a]]
+         /\ replaced' = replaced \cup r.drop \cup stale /\ down' = down \cup r.drop \cup stale \cup dead
+         /\ closed' = closed \cup dead /\ lost' = lost \cup dead
 
 \* serviceConnects(): accept everything that waits (TLS: and service the handshakes); never raises
 ServiceConnects(h) ==
     /\ Accepting(h)
     /\ pending' = <<>>
-    /\ res' = "ok" /\ act' = Act("ServiceConnects", "", h)
-    /\ UNCHANGED <<kind, nconn, closed, peerclosed, cut, removed>>
+    /\ res' = "served"
+    /\ UNCHANGED <<kind, nconn, peerclosed, cut, removed>>
 
 \* serviceAll(): serviceConnects, then receive and transmit on every ready connection: a connection whose peer closed is
 \* seen to be cut off.  (What servicing does to an entry whose socket the application closed with closeIx but left in the
@@ -103,51 +108,53 @@ ServiceAll(h) ==
     /\ Accepting(h)
     /\ pending' = <<>>
     /\ cut' = cut \cup {ixes'[a] : a \in {b \in Addrs : ixes'[b] \in peerclosed}}
-    /\ res' = "ok" /\ act' = Act("ServiceAll", "", h)
-    /\ UNCHANGED <<kind, nconn, closed, peerclosed, removed>>
+    /\ res' = "served"
+    /\ UNCHANGED <<kind, nconn, peerclosed, removed>>
 
 (* ---------------- operations on entries ---------------- *)
-Same == UNCHANGED <<kind, pending, nconn, cxes, peerclosed, cut, replaced>>
-Invalid(a, ca) == /\ ixes[ca] = 0
-                  /\ res' = "ValueError" /\ act' = Act(a, ca, NoH)
-                  /\ UNCHANGED <<ixes, down, closed, removed>> /\ Same
+Same == UNCHANGED <<kind, pending, nconn, cxes, peerclosed, cut, replaced, lost>>
+Invalid == res' = "ValueError" /\ UNCHANGED <<ixes, down, closed, removed>>
 
-ShutdownIx(ca) == \/ Invalid("ShutdownIx", ca)
-                  \/ /\ ixes[ca] # 0
-                     /\ down' = down \cup {ixes[ca]}
-                     /\ res' = "ok" /\ act' = Act("ShutdownIx", ca, NoH)
-                     /\ UNCHANGED <<ixes, closed, removed>> /\ Same
+ShutdownIx(ca) == /\ IF ixes[ca] = 0 THEN Invalid
+                     ELSE /\ down' = down \cup {ixes[ca]}
+                          /\ res' = "ok"
+                          /\ UNCHANGED <<ixes, closed, removed>>
+                  /\ Same
 
-CloseIx(ca) == \/ Invalid("CloseIx", ca)
-               \/ /\ ixes[ca] # 0
-                  /\ down' = down \cup {ixes[ca]} /\ closed' = closed \cup {ixes[ca]}
-                  /\ res' = "ok" /\ act' = Act("CloseIx", ca, NoH)
-                  /\ UNCHANGED <<ixes, removed>> /\ Same
+CloseIx(ca) == /\ IF ixes[ca] = 0 THEN Invalid
+                  ELSE /\ down' = down \cup {ixes[ca]} /\ closed' = closed \cup {ixes[ca]}
+                       /\ res' = "ok"
+                       /\ UNCHANGED <<ixes, removed>>
+               /\ Same
 
-Remove(ca) == \/ Invalid("Remove", ca)
-              \/ /\ ixes[ca] # 0
-                 /\ down' = down \cup {ixes[ca]} /\ closed' = closed \cup {ixes[ca]} /\ removed' = removed \cup {ixes[ca]}
-                 /\ ixes' = [ixes EXCEPT ![ca] = 0]
-                 /\ res' = "ok" /\ act' = Act("Remove", ca, NoH)
-                 /\ Same
+Remove(ca) == /\ IF ixes[ca] = 0 THEN Invalid
+                 ELSE /\ down' = down \cup {ixes[ca]} /\ closed' = closed \cup {ixes[ca]} /\ removed' = removed \cup {ixes[ca]}
+                      /\ ixes' = [ixes EXCEPT ![ca] = 0]
+                      /\ res' = "ok"
+              /\ Same
 
-Next == \/ \E ca \in Addrs : Arrive(ca) \/ PeerClose(ca) \/ ShutdownIx(ca) \/ CloseIx(ca) \/ Remove(ca)
-        \/ \E h \in Answers \cup {NoH} : ServiceConnects(h) \/ ServiceAll(h)
+Next == \/ \E ca \in Addrs : Arrive(ca)
+        \/ \E ca \in Addrs : PeerClose(ca)
+        \/ \E ca \in Addrs : ShutdownIx(ca)
+        \/ \E ca \in Addrs : CloseIx(ca)
+        \/ \E ca \in Addrs : Remove(ca)
+        \/ \E h \in Answers \cup {NoH} : ServiceConnects(h)
+        \/ \E h \in Answers \cup {NoH} : ServiceAll(h)
 Spec == Init /\ [][Next]_vars
 
 (* ---------------- properties ---------------- *)
 Waiting == {pending[i][1] : i \in 1..Len(pending)}
 Ready == {ixes[a] : a \in Addrs} \ {0}
 Staged == {cxes[a] : a \in Addrs} \ {0}
-\* exactly one entry per connected peer address: every accepted connection that was neither removed nor replaced by a
-\* newer one from its address has an entry, no connection has two entries, and nothing else has one
-OnePerAddress == /\ Ready \cup Staged = (1..nconn) \ (Waiting \cup removed \cup replaced)
+\* exactly one entry per connected peer address: every accepted connection that was neither removed, nor replaced by a
+\* newer one from its address, nor lost during its handshake has an entry, no connection has two entries, and nothing else has one
+OnePerAddress == /\ Ready \cup Staged = (1..nconn) \ (Waiting \cup removed \cup replaced \cup lost)
                  /\ Ready \cap Staged = {}
                  /\ Cardinality(Ready) = Cardinality({a \in Addrs : ixes[a] # 0})
 \* a stale connection that lost its entry was shut down
 ReplacedIsShutDown == replaced \subseteq down
 \* removing closes
-RemoveCloses == removed \subseteq closed /\ closed \subseteq down
+RemoveCloses == removed \subseteq closed /\ lost \subseteq closed /\ closed \subseteq down
 \* accepting (also from a repeated address) and servicing never raise
-NeverRaises == act.a \in {"ServiceConnects", "ServiceAll"} => res = "ok"
+NeverRaises == [][(pending # <<>> /\ pending' = <<>>) => res' = "served"]_vars
 =============================================================================
